@@ -292,6 +292,25 @@ def c09_extra(tier, seed, ctx):
             evals += 1
             distinct.add((fen, lim))
             violations += robust(deep_mate, attempts=2)
+    # positions whose capture trees are enormous (the first iteration alone would take minutes): a time limit must still be noticed
+    # in the middle of the quiescence search, whatever the kind of limit
+    dense = ["3qk3/1q1q1q2/2q1q3/1QQQQQ2/1qqqqq2/2Q1Q3/1Q1Q1Q2/3QK3 w - - 0 1", "4k3/8/qrbnnbrq/1rbnnbrq/QRBNNBR1/QRBNNBRQ/8/4K3 w - - 0 1"]
+    for fen in dense:
+        for lim in ("movetime 100", "wtime 2000 btime 2000", "wtime 1500 btime 1500 winc 100 binc 100 movetime 300"):
+            def dense_case(scale, fen=fen, lim=lim):
+                e2 = Engine(ctx["engine"])
+                e2.send(f"position fen {fen}")
+                v2, mv2, _, _ = one_go(e2, fen, lim, time_budget(fen, lim) + 1.0, scale)
+                if mv2 is not None:
+                    queries.append((fen, "", mv2))
+                    e2.send("quit")
+                    e2.close()
+                else:
+                    e2.kill()
+                return v2
+            evals += 1
+            distinct.add((fen, lim))
+            violations += robust(dense_case, attempts=3)
     # a go whose only end is the stop sent right behind it (both lines in one write): still exactly one bestmove, promptly
     for fen in chosen[:3]:
         for go in ("go infinite", "go movetime 600000", "go depth 200", "go"):
